@@ -4,6 +4,7 @@
    way the data is cut between the layers, `archive_open (archive_write …)` succeeds and the
    reader lists / returns / hashes exactly what was given — or a wrapped key's tag verifies
    under a wrapping key it was not made with (Ecies.TagCollision; no unforgeability assumed). *)
+From MLA Require Import Limit.
 From MLA Require Import Base Stream EncLayer EncLayerProofs CompLayer CompLayerProofs RawLayer RawLayerProofs
   CompWriterProofs LayerStack Blocks Writer WriterProofs Reader EncWriter EncWriterProofs Format FormatProofs Ecies
   RoundTripBlocks RoundTripWriter RoundTripReader RoundTripRun RoundTrip Archive.
@@ -85,6 +86,7 @@ Qed.
 
 Section Roundtrip.
   Variables CHUNK TAG CIPHERBUF BLOCK LIMIT FNMAX : N.
+  Local Hint Extern 0 Limit => exact LIMIT : typeclass_instances.
   Variables TS TC TA TE : N.
   Variable H : bytes -> bytes.
   Variable order : footer -> footer.
@@ -114,7 +116,7 @@ Section Roundtrip.
   Notation wrun := (wrun FNMAX TS TC TA TE H order).
   Notation wconfig := (wconfig).
   Notation to_persistent := (to_persistent pubk dh kdf wenc wtag).
-  Notation lower_write := (lower_write CHUNK CIPHERBUF BLOCK ksf tagf).
+  Notation lower_write := (lower_write CHUNK CIPHERBUF BLOCK LIMIT ksf tagf).
   Notation archive_write := (archive_write CHUNK CIPHERBUF BLOCK LIMIT FNMAX TS TC TA TE H order pubk dh kdf wenc wtag ksf tagf).
   Notation archive_open := (archive_open CHUNK TAG BLOCK LIMIT dh kdf wdec wtag ksf tagf dec).
   Notation open_stack := (open_stack CHUNK TAG BLOCK LIMIT ksf tagf dec).
@@ -129,9 +131,11 @@ Section Roundtrip.
   Lemma lower_write_ok cfg cut_top cut_mid blocks :
     (wc_compress cfg = true -> 12 + 4 * nblocks BLOCK (len blocks) < 2 ^ 32) ->
     (wc_encrypt cfg = true -> nfull CHUNK (len (mid_of cfg blocks)) + 2 < 2 ^ 32) ->
+    (* CompressionLayerWriter::finalize: the SizesInfo footer under BINCODE_MAX_DESERIALIZE *)
+    (wc_compress cfg = true -> 12 + 4 * nblocks BLOCK (len blocks) <= LIMIT) ->
     lower_write cfg cut_top cut_mid blocks = Ok (wire_of cfg blocks).
   Proof.
-    intros Hc He. unfold Archive.lower_write, Archive.wire_of, Archive.mid_of in *.
+    intros Hc He Hcl. unfold Archive.lower_write, Archive.wire_of, Archive.mid_of in *.
     assert (Hmid : exists mid,
       (if wc_compress cfg then
          match cw_write_pieces BLOCK (wc_comp cfg) cw_init (cut_pieces cut_top blocks) with
@@ -147,6 +151,7 @@ Section Roundtrip.
     { destruct (wc_compress cfg).
       - destruct (comp_writer_canonical BLOCK HB HB32 (wc_comp cfg) (cut_pieces cut_top blocks)) as (w1 & w2 & -> & -> & Ho).
         + rewrite cut_pieces_concat. apply Hc. reflexivity.
+        + rewrite cut_pieces_concat. apply Hcl. reflexivity.
         + eexists. split; [reflexivity|]. rewrite cut_pieces_concat, Ho, cut_pieces_concat. reflexivity.
       - eexists. split; [reflexivity|]. apply cut_pieces_concat. }
     destruct Hmid as (mid & -> & Hcat). cbn [bind].
@@ -405,6 +410,7 @@ Section Roundtrip.
       + reflexivity.
       + intros Ec. destruct (Hc Ec) as (_ & _ & _ & H32 & _). exact H32.
       + intros Ee. destruct (He Ee) as (_ & _ & _ & Hch & _). exact (proj1 Hch).
+      + intros Ec. destruct (Hc Ec) as (_ & _ & Hlm & _). exact Hlm.
     - (* the configuration the reader loads *)
       assert (Hcfg : (TagCollision pubk dh kdf wenc wtag (wc_eph cfg) (wc_key cfg) (wc_recipients cfg) privs) \/
                      exists k n, load_config hp privs = Ok (wc_encrypt cfg, wc_compress cfg, k, n) /\
@@ -504,6 +510,7 @@ Section Roundtrip.
       + reflexivity.
       + intros Ec. destruct (Hc Ec) as (_ & _ & _ & H32 & _). exact H32.
       + intros Ee. destruct (He Ee) as (_ & _ & _ & Hch & _). exact (proj1 Hch).
+      + intros Ec. destruct (Hc Ec) as (_ & _ & Hlm & _). exact Hlm.
     - subst a. exact (read_header_ser LIMIT hp _ Hwf Hlim).
     - (* the configuration the reader loads *)
       assert (Hcfg : (TagCollision pubk dh kdf wenc wtag (wc_eph cfg) (wc_key cfg) (wc_recipients cfg) privs) \/
